@@ -183,6 +183,27 @@ fn dec_program(w: &[i64]) -> (Program, BTreeMap<u8, i64>, Vec<FixWord>) {
     )
 }
 
+/// The program of a `tbig n kv seed` case in the encoding of `dec_program`: n kern steps in one fall-through
+/// chain (the last one stops), kv distinct kern values, character c < min(n, 3) enters at word c (few entry
+/// points keep the evaluation of the rules, model side and code side, linear in n).
+fn tbig_program(a: &[i64]) -> Vec<i64> {
+    let n = a.first().copied().unwrap_or(1).clamp(1, 32_000) as usize;
+    let kv = a.get(1).copied().unwrap_or(1).clamp(1, 1000) as u64;
+    let mut r = Rng::new(a.get(2).copied().unwrap_or(0) as u64 ^ 0xb16);
+    let mut w: Vec<i64> = vec![-1, -1, n as i64];
+    for i in 0..n {
+        let k = 1000 + 7919 * r.below(kv) as i64;
+        w.extend([if i + 1 == n { -1 } else { 0 }, (i % 251) as i64, 0, k, 0]);
+    }
+    let m = n.min(3);
+    w.push(m as i64);
+    for c in 0..m {
+        w.extend([c as i64, c as i64]);
+    }
+    w.push(0);
+    w
+}
+
 /// A printed LIGTABLE element as the driver's `items` reply writes it (comments are skipped).
 fn enc_item(it: &tfm::pl::ast::LigTable, out: &mut Vec<i64>) {
     use tfm::pl::ast::{LigTable, LigTableLabel};
@@ -233,6 +254,8 @@ struct Shape {
     nl: u32,   // NEXTLARGER links
     nv: u32,   // VARCHAR recipes
     np: u32,   // params
+    ss: u32,   // > 0: CODINGSCHEME / FAMILY are generated strings (runs of 1-4 blanks, maximal length 39 / 19, punctuation, lower case); in `raw` also leading / trailing blanks
+    kv: u32,   // > 0: kern values are drawn from that many distinct values only
     face: u32, // 1..=256: FACE byte face-1 stated in the property list (odd seeds: as an `F` code when below 18)
     fbyte: u32, // 1..=256: the face byte of t0 is overwritten with fbyte-1 (TFM side)
     hx: u32,   // additional header words HEADER D 18 .. D 17+hx (238 gives the maximal header, lh = 256)
@@ -269,6 +292,8 @@ impl Shape {
             ("odd", self.odd as u64),
             ("vx", self.vx as u64),
             ("va", self.va as u64),
+            ("ss", self.ss as u64),
+            ("kv", self.kv as u64),
             ("face", self.face as u64),
             ("fbyte", self.fbyte as u64),
             ("hx", self.hx as u64),
@@ -320,6 +345,8 @@ impl Shape {
             odd: g("odd") as u32,
             vx: g("vx") as u32,
             va: g("va") as u32,
+            ss: g("ss") as u32,
+            kv: g("kv") as u32,
             face: g("face") as u32,
             fbyte: g("fbyte") as u32,
             hx: g("hx") as u32,
@@ -371,6 +398,8 @@ impl Shape {
             odd: if r.chance(1, 4) { 1 << r.below(7) } else { 0 },
             vx: *r.pick(&[0u32, 0, 0, 2, 3, 6, 12, 40]),
             va: 2 + r.below(2) as u32,
+            ss: if r.chance(1, 3) { 1 + r.below(1000) as u32 } else { 0 },
+            kv: *r.pick(&[0u32, 0, 0, 1, 2, 5]),
             face: if r.chance(1, 4) { 1 + r.below(256) as u32 } else { 0 },
             fbyte: if r.chance(1, 4) { 1 + r.below(256) as u32 } else { 0 },
             hx: *r.pick(&[0u32, 0, 0, 0, 0, 0, 1, 2, 100, 235, 236, 237, 238]),
@@ -419,6 +448,9 @@ enum HNum {
 
 #[derive(Clone, Debug, Default)]
 struct GFont {
+    /// generated header strings (CODINGSCHEME, FAMILY) when the shape asks for them; they replace
+    /// the `head` lines of the same keyword
+    strs: Option<(String, String)>,
     /// seed for the written forms of numbers (0: the forms tftopl prints)
     form_seed: u64,
     nums: Vec<HNum>,
@@ -562,6 +594,8 @@ fn gen_font(sh: &Shape) -> GFont {
                     2 => *r.pick(&[(16 << 20) - 1, -(16 << 20)]),
                     _ => r.range(-(1 << 20), 1 << 20) as i32,
                 };
+                // few distinct kern values shared by many steps (kv > 0)
+                let k = if sh.kv > 0 { 1000 + 7919 * (k.unsigned_abs() % sh.kv) as i32 } else { k };
                 f.lig.push(LItem::Krn(right, k));
             }
         };
@@ -771,6 +805,37 @@ fn gen_font(sh: &Shape) -> GFont {
     if (h & 8 != 0 && h & 4 != 0) || (sh.odd & 64 != 0 && sh.vx == 0) {
         f.head.push("(SEVENBITSAFEFLAG TRUE)".into());
     }
+    // header strings with every shape the fields allow (a separate generator)
+    if sh.ss > 0 {
+        let mut sr = Rng::new(sh.seed ^ ((sh.ss as u64) << 20) ^ 0x57a1);
+        let mut mk = |max: usize| -> String {
+            let target = match sr.below(6) {
+                0 => max,
+                1 => max - 1,
+                2 => 1 + sr.below(3) as usize,
+                _ => 1 + sr.below(max as u64) as usize,
+            };
+            const PUNCT: &[u8] = b"-_.+*/:;,!?'\"@#$%&<>=[]{}|~^`";
+            let mut v: Vec<u8> = vec![];
+            while v.len() < target {
+                match sr.below(20) {
+                    0..=9 => v.push(b'A' + sr.below(26) as u8),
+                    10..=12 => v.push(b'a' + sr.below(26) as u8),
+                    13 | 14 => v.push(b'0' + sr.below(10) as u8),
+                    15 | 16 => v.push(*sr.pick(PUNCT)),
+                    _ => {
+                        for _ in 0..1 + sr.below(4) {
+                            v.push(b' ');
+                        }
+                    }
+                }
+            }
+            v.truncate(target);
+            String::from_utf8(v).unwrap()
+        };
+        let (a, b) = (mk(39), mk(19));
+        f.strs = Some((a, b));
+    }
     // FACE byte requested by the shape (all 256 values are swept by built-in cases)
     if sh.face > 0 {
         f.nums.retain(|n| !matches!(n, HNum::Face(..)));
@@ -871,6 +936,18 @@ fn oc(c: u8) -> String {
     }
 }
 
+/// The generated header strings as a property list can state them: blanks at either end belong to
+/// the syntax, not to the string (an all-blank string is replaced by `X`).
+fn pl_strings(f: &GFont) -> Option<(String, String)> {
+    f.strs.as_ref().map(|(a, b)| {
+        let t = |x: &String| {
+            let y = x.trim_matches(' ').to_string();
+            if y.is_empty() { "X".to_string() } else { y }
+        };
+        (t(a), t(b))
+    })
+}
+
 fn face_code(b: u8) -> String {
     let w = ["M", "B", "L"][((b % 6) / 2) as usize];
     let sl = ["R", "I"][(b % 2) as usize];
@@ -887,8 +964,14 @@ fn font_to_pl_opt(f: &GFont, numbers: bool) -> String {
     FORM.with(|x| x.set(f.form_seed));
     let mut s = String::new();
     for h in &f.head {
+        if f.strs.is_some() && (h.starts_with("(FAMILY") || h.starts_with("(CODINGSCHEME")) {
+            continue;
+        }
         s.push_str(h);
         s.push('\n');
+    }
+    if let Some((scheme, family)) = pl_strings(f) {
+        s.push_str(&format!("(CODINGSCHEME {scheme})\n(FAMILY {family})\n"));
     }
     if numbers {
         for n in &f.nums {
@@ -1166,6 +1249,52 @@ fn raw_view(t: &[u8]) -> Option<RawView> {
         chars,
         params,
     })
+}
+
+/// The character layer of a .tfm as the driver's `chars` request / reply: rows of the existing
+/// characters (code, four index bytes, tag kind, remainder), the four tables, the recipe words.
+/// `keep_lig_rem = false` blanks the remainders of lig tags (they belong to the lig/kern layer).
+fn raw_chars_layer(t: &[u8]) -> Option<Vec<i64>> {
+    if t.len() < 24 {
+        return None;
+    }
+    let w = |i: usize| u16::from_be_bytes([t[2 * i], t[2 * i + 1]]) as usize;
+    let (lf, lh, bc, ec, nw, nh, nd, ni, nl, nk, ne, np) = (w(0), w(1), w(2), w(3), w(4), w(5), w(6), w(7), w(8), w(9), w(10), w(11));
+    let nc = if ec + 1 >= bc { ec + 1 - bc } else { 0 };
+    if t.len() < 4 * lf || lf != 6 + lh + nc + nw + nh + nd + ni + nl + nk + ne + np || ec > 255 {
+        return None;
+    }
+    let ci = 24 + 4 * lh;
+    let wb = ci + 4 * nc;
+    let hb = wb + 4 * nw;
+    let db = hb + 4 * nh;
+    let ib = db + 4 * nd;
+    let eb = ib + 4 * (ni + nl + nk);
+    let mut rows: Vec<i64> = vec![];
+    let mut n = 0i64;
+    for k in 0..nc {
+        let b = &t[ci + 4 * k..ci + 4 * k + 4];
+        if b[0] == 0 {
+            continue;
+        }
+        n += 1;
+        let tag = b[2] % 4;
+        rows.extend([(bc + k) as i64, b[0] as i64, (b[1] / 16) as i64, (b[1] % 16) as i64, (b[2] / 4) as i64, tag as i64, if tag == 1 { 0 } else { b[3] as i64 }]);
+    }
+    let mut v = vec![n];
+    v.extend(rows);
+    for (base, cnt) in [(wb, nw), (hb, nh), (db, nd), (ib, ni)] {
+        v.push(cnt as i64);
+        for i in 0..cnt {
+            let o = base + 4 * i;
+            v.push(i32::from_be_bytes([t[o], t[o + 1], t[o + 2], t[o + 3]]) as i64);
+        }
+    }
+    v.push(ne as i64);
+    for i in 0..ne {
+        v.extend(t[eb + 4 * i..eb + 4 * i + 4].iter().map(|x| *x as i64));
+    }
+    Some(v)
 }
 
 /// PLtoTF's seven-bit safety of the font in `v`, decided by Lean (`safe7`).
@@ -1497,6 +1626,57 @@ impl C11 {
                 );
             }
         }
+        // The header of t1 is what the model (`headerTrip`, Model/C11Header.lean) makes of the header bytes
+        // of t0 and the seven-bit safety Lean computed from the raw bytes (I vs M, byte for byte).
+        if let Some(safe) = safe0 {
+            let hdr = |t: &[u8]| -> Option<Vec<u8>> {
+                if t.len() < 24 {
+                    return None;
+                }
+                let lh = u16::from_be_bytes([t[2], t[3]]) as usize;
+                t.get(24..24 + 4 * lh).map(|x| x.to_vec())
+            };
+            if let (Some(h0), Some(h1)) = (hdr(t0), hdr(&t1)) {
+                let reply = drv.ask(&format!("header {} {}", safe as u8, join(&h0)));
+                if reply == "notok" {
+                    out.tag("header:outside-model");
+                } else if reply.trim() == join(&h1) {
+                    out.tag("header:t1-header-as-predicted");
+                } else {
+                    let m: Vec<&str> = reply.split(' ').collect();
+                    let i = (0..m.len().max(h1.len())).find(|i| m.get(*i).map(|x| x.to_string()) != h1.get(*i).map(|x| x.to_string())).unwrap_or(0);
+                    out.fail(
+                        Kind::ImplVsModel,
+                        "header",
+                        "header of t1 differs from the model's prediction",
+                        format!("first difference at header byte {i}: model {:?}, impl {:?} (lengths {} / {})", m.get(i), h1.get(i), m.len(), h1.len()),
+                    );
+                }
+            }
+        }
+        // The character layer of t1 is what the model (`charsTrip`, Model/C11Layers.lean) makes of the
+        // character layer of t0 - index bytes, the four tables, recipe words, byte for byte (I vs M).
+        if let (Some(c0), Some(c1)) = (raw_chars_layer(t0), raw_chars_layer(&t1)) {
+            if t0.len() <= 60_000 {
+                let reply = drv.ask(&format!("chars {}", join(&c0)));
+                match reply.as_str() {
+                    "lossy" => out.tag("chars:lossy (C17)"),
+                    "notok" => out.tag("chars:outside-model"),
+                    m => {
+                        if m.trim() == join(&c1) {
+                            out.tag("chars:t1-character-layer-as-predicted");
+                        } else {
+                            out.fail(
+                                Kind::ImplVsModel,
+                                "chars",
+                                "character layer of t1 differs from the model's prediction",
+                                format!("model: {}\nimpl:  {}", trunc_s(m, 1500), trunc_s(&join(&c1), 1500)),
+                            );
+                        }
+                    }
+                }
+            }
+        }
         // Characters and parameters of t0 and t1 at byte level (independent of the Rust reader): the
         // same characters, each with the same four dimension *values*, the same kind of tag, the same
         // NEXTLARGER target and the same recipe bytes; the same parameter words.
@@ -1754,6 +1934,10 @@ impl C11 {
                         (None, Some(d)) if d == "UNSPECIFIED" => "header normalised: short header padded with PL defaults",
                         // exactly the recorded normalisation: every lower-case letter upper-cased, nothing else
                         (Some(x), Some(y)) if *y == x.to_ascii_uppercase() => "header normalised: lower-case letters in strings upper-cased",
+                        // exactly the recorded normalisation: the blanks in front dropped (and the rest upper-cased), nothing else
+                        (Some(x), Some(y)) if x.starts_with(' ') && *y == x.trim_start_matches(' ').to_ascii_uppercase() => {
+                            "header normalised: leading blanks of a string dropped"
+                        }
                         _ => name,
                     });
                 }
@@ -2204,6 +2388,10 @@ fn shape_t0_uncut(sh: &Shape, raw: bool) -> Result<Vec<u8>, String> {
             }
             file.extensible_chars = table;
         }
+        if let Some((scheme, family)) = &f.strs {
+            file.header.character_coding_scheme = Some(scheme.clone());
+            file.header.font_family = Some(family.clone());
+        }
         let (x_checksum, x_extra, x_face) = expected_header(&f);
         if let Some(v) = x_checksum {
             file.header.checksum = Some(v);
@@ -2295,6 +2483,11 @@ impl Property for C11 {
         for b in 0..18u32 {
             v.push(Shape { nc: 1, nw: 1, face: b + 1, seed: 3001 + 2 * b as u64, ..base.clone() }.show("gen")); // odd seed: `FACE F xyz`
         }
+        // header strings: blank runs, maximal lengths, punctuation, lower case - PL side and TFM bytes side
+        for k in 0..24u32 {
+            v.push(Shape { nc: 1, nw: 1, ss: 1 + k, seed: 5000 + k as u64, ..base.clone() }.show("gen"));
+            v.push(Shape { nc: 1, nw: 1, ss: 1 + k, seed: 5100 + k as u64, ..base.clone() }.show("raw"));
+        }
         // CHECKSUM and HEADER words at the extremes of u32, octal and hexadecimal
         for k in 0..40u64 {
             v.push(Shape { nc: 1, nw: 1, hdr: 0b0011_0000, seed: 4000 + k, ..base.clone() }.show("gen"));
@@ -2343,7 +2536,22 @@ impl Property for C11 {
     }
     fn generate(&mut self, ctx: &Ctx, rng: &mut Rng) -> Vec<String> {
         let mut v = vec![];
-        let (n_gen, n_raw, n_pack, n_kerns) = if ctx.thorough { (6000, 3000, 20000, 4000) } else { (450, 220, 1500, 300) };
+        // very many kern steps over very few distinct values (the kern sub-file stays tiny): the size guard of
+        // the PL reader must count distinct values; quick has one such font, thorough three incl. near the limit
+        {
+            let big = Shape { nc: 30, nw: 3, chains: 4, len: 2, labels: 1, lig: 0, kv: 2, ..Shape::parse("") };
+            let pads: &[u32] = if ctx.thorough { &[8_000, 16_000, 30_000] } else { &[16_000] };
+            for (i, pad) in pads.iter().enumerate() {
+                v.push(Shape { pad: *pad, seed: 6000 + 2 * i as u64, ..big.clone() }.show("gen"));
+                // the same font laid out by the harness: the guard is then met on the way back (trip1)
+                if ctx.thorough {
+                    v.push(Shape { pad: *pad, seed: 6000 + 2 * i as u64, ..big.clone() }.show("raw"));
+                }
+                // and a program the harness built word by word
+                v.push(format!("tbig {} {} {}", pad + 40 * i as u32, 2 + i, 7 + i));
+            }
+        }
+        let (n_gen, n_raw, n_pack, n_kerns) = if ctx.thorough { (6000, 3000, 20000, 4000) } else { (400, 200, 1500, 300) };
         let n_norm = if ctx.thorough { 12000 } else { 900 };
         let mut r = rng.fork();
         for i in 0..n_gen {
@@ -2599,8 +2807,16 @@ impl Property for C11 {
                         out.tag(format!("gen:discarded ({kind})"));
                         // The generated property lists are well-formed: only semantic warnings can
                         // be legitimate (loops, seven-bit safety, table too long).
-                        let legit = ["CycleInLigKernProgram", "NotReallySevenBitSafe", "CycleInNextLargerProgram", "LigTableIsTooBig"];
-                        if sh.odd == 0 && !legit.contains(&kind.as_str()) {
+                        let legit = ["CycleInLigKernProgram", "NotReallySevenBitSafe", "CycleInNextLargerProgram"];
+                        // "table too long" is legitimate only when the steps plus the *distinct* kern values
+                        // really exceed what a .tfm can hold (pl/mod.rs MAX_LIG_KERN_WORDS = 31 129, 32 510 steps)
+                        let too_big_ok = kind == "LigTableIsTooBig" && {
+                            let f = gen_font(&sh);
+                            let steps = f.lig.iter().filter(|i| matches!(i, LItem::Lig(..) | LItem::Krn(..))).count();
+                            let kerns: BTreeSet<i32> = f.lig.iter().filter_map(|i| if let LItem::Krn(_, k) = i { Some(*k) } else { None }).collect();
+                            steps + kerns.len() > 31_129 || steps >= 32_510
+                        };
+                        if sh.odd == 0 && !legit.contains(&kind.as_str()) && !too_big_ok {
                             out.fail(
                                 Kind::ImplVsSpec,
                                 "source",
@@ -2621,6 +2837,26 @@ impl Property for C11 {
                             if let Some(v) = raw_view(&t0) {
                                 if !f.nums.is_empty() {
                                     out.tag("source:header-numbers");
+                                }
+                                if let (Some((scheme, family)), "gen", true) = (pl_strings(&f), cmd, v.lh >= 18) {
+                                    out.tag("source:header-strings");
+                                    if scheme.contains("  ") || family.contains("  ") {
+                                        out.tag("source:string-with-blank-run");
+                                    }
+                                    let bcpl = |off: usize| -> Vec<u8> {
+                                        let n = t0[24 + off] as usize;
+                                        t0[24 + off + 1..24 + off + 1 + n].to_vec()
+                                    };
+                                    for (name, want, got) in [("CODINGSCHEME", scheme.as_bytes().to_vec(), bcpl(8)), ("FAMILY", family.as_bytes().to_vec(), bcpl(48))] {
+                                        if want != got {
+                                            out.fail(
+                                                Kind::ImplVsSpec,
+                                                "source",
+                                                format!("header string of the property list is not in t0: {name}"),
+                                                format!("property list {:?}, t0 {:?}", String::from_utf8_lossy(&want), String::from_utf8_lossy(&got)),
+                                            );
+                                        }
+                                    }
                                 }
                                 if f.nums.iter().any(|n| matches!(n, HNum::Header(_, v, _) | HNum::Checksum(v, _) if *v >= 0xFFFF_FFF0)) {
                                     out.tag("source:u32>=FFFFFFF0");
@@ -2782,11 +3018,13 @@ impl Property for C11 {
                     Ok(t0) => self.round_trip(&t0, drv, &mut out),
                 }
             }
-            "tprog" => {
+            "tprog" | "tbig" => {
                 // `tprog <program>`: a .tfm with all 256 characters whose lig/kern table is the given
                 // TFM-level program (kern values inline; the real unpack_kerns and serialiser are used)
-                out.tag("src:tprog");
-                let w = parse_i64s(rest);
+                // `tbig <n> <kv> <seed>`: the same with a generated program of n kern steps over kv distinct
+                // values, entered by three characters (a size dimension no case line could spell out)
+                out.tag(format!("src:{cmd}"));
+                let w = if cmd == "tbig" { tbig_program(&parse_i64s(rest)) } else { parse_i64s(rest) };
                 let (prog, entries, _) = dec_program(&w);
                 let t0 = caught(|| {
                     let mut pl = String::new();
@@ -2987,6 +3225,8 @@ impl Property for C11 {
                 field!(hdr);
                 field!(odd);
                 field!(vx);
+                field!(ss);
+                field!(kv);
                 field!(face);
                 field!(fbyte);
                 field!(hx);
@@ -3069,6 +3309,18 @@ impl Property for C11 {
                 if ins.chunks(2).any(|x| x[0] > 0) {
                     let i2: Vec<i64> = ins.chunks(2).flat_map(|x| [if x[0] > 0 { 0 } else { x[0] }, x[1]]).collect();
                     c.push(mk(w[0], w[1], &i2, &ent));
+                }
+            }
+            "tbig" => {
+                let a = parse_i64s(rest);
+                let (n, kv, seed) = (a.first().copied().unwrap_or(1), a.get(1).copied().unwrap_or(1), a.get(2).copied().unwrap_or(0));
+                for m in [n / 2, n - n / 4, n - n / 8, n - n / 16, n - n / 64, n - n / 256] {
+                    if m >= 1 && m < n {
+                        c.push(format!("tbig {m} {kv} {seed}"));
+                    }
+                }
+                if kv > 1 {
+                    c.push(format!("tbig {n} {} {seed}", kv - 1));
                 }
             }
             "norm" | "tprog" => {
